@@ -175,8 +175,15 @@ pub fn gen_case(t: &mut Tape) -> Case {
         ("", "")
     };
     // a `&mut self` method (delegation to `Self`): `&mut Impl<T>` has to become `&mut T`
-    let mut_method = !dynamic && t.chance(1, 5);
-    let (mut_decl, mut_impl) = if mut_method {
+    let mut_method = !dynamic && t.chance(if no_send { 3 } else { 1 }, 5);
+    // (async under `?Send`: nothing asks the future to be `Send`, so nothing may ask `T: Send` either - the `!Send` provider probe)
+    let mut_async = mut_method && no_send && any_async && !use_async_trait && t.chance(2, 3);
+    let (mut_decl, mut_impl) = if mut_async {
+        (
+            "    async fn bump(&mut self, x: i32) -> String;\n",
+            "    async fn bump(&mut self, x: i32) -> String { rt::yield_once().await; let __r = format!(\"BUMP|{}|{}\", rt::addr(self), x); rt::trace(__r.clone()); __r }\n",
+        )
+    } else if mut_method {
         (
             "    fn bump(&mut self, x: i32) -> String;\n",
             "    fn bump(&mut self, x: i32) -> String { let __r = format!(\"BUMP|{}|{}\", rt::addr(self), x); rt::trace(__r.clone()); __r }\n",
@@ -421,8 +428,8 @@ pub fn gen_case(t: &mut Tape) -> Case {
         src.push_str("    }\n");
     }
     if mut_method {
-        src.push_str("    {\n        let mut mapp = ::entrait::Impl::new(mk_app());\n        let _ = rt::take();\n        let direct = Tr::bump(&mut *mapp, 9);\n        let t_direct = rt::take();\n");
-        src.push_str("/*GEN*/ let via = Tr::bump(&mut mapp, 9);\n        let t_via = rt::take();\n");
+        src.push_str(&"    {\n        let mut mapp = ::entrait::Impl::new(mk_app());\n        let _ = rt::take();\n        let direct = @B@Tr::bump(&mut *mapp, 9)@E@;\n        let t_direct = rt::take();\n".replace("@B@", if mut_async { "rt::block_on(" } else { "" }).replace("@E@", if mut_async { ")" } else { "" }));
+        src.push_str(&"/*GEN*/ let via = @B@Tr::bump(&mut mapp, 9)@E@;\n        let t_via = rt::take();\n".replace("@B@", if mut_async { "rt::block_on(" } else { "" }).replace("@E@", if mut_async { ")" } else { "" }));
         src.push_str("/*GEN*/ rt::expect_eq(&mut fails, \"`&mut self` method: result through Impl<T> vs the provider\", &via, &direct);\n");
         src.push_str("/*GEN*/ rt::expect_eq(&mut fails, \"`&mut self` method: call trace (same provider)\", &t_via, &t_direct);\n");
         src.push_str("        if t_direct.len() != 1 { fails.push(format!(\"HARNESS: bump traced {} entries on the provider\", t_direct.len())); }\n");
@@ -498,7 +505,7 @@ pub fn gen_case(t: &mut Tape) -> Case {
         classes.push("associated_fn_whose_first_parameter_is_named___impl");
     }
     if mut_method {
-        classes.push("mut_self_method");
+        classes.push(if mut_async { "mut_self_method_async_under_maybe_send" } else { "mut_self_method" });
     }
     if sup_same_name {
         classes.push("supertrait_method_of_the_same_name");
@@ -522,7 +529,7 @@ pub fn gen_case(t: &mut Tape) -> Case {
         extras.push(if selfless_impl_named { "fn make(__impl: i32, y: i32) -> String" } else { "fn make(x: i32, y: i32) -> String" });
     }
     if mut_method {
-        extras.push("fn bump(&mut self, x: i32) -> String");
+        extras.push(if mut_async { "async fn bump(&mut self, x: i32) -> String" } else { "fn bump(&mut self, x: i32) -> String" });
     }
     if sup_same_name {
         extras.push("[Sup has a provided method named like the first method]");
